@@ -38,7 +38,8 @@ def run(rep, tier, seed, replay_file=None):
     binary = harness.build(L.BINARY)
     cells, behs, edge, abort, sim = f_cells.result(), f_behs.result(), f_edge.result(), f_abort.result(), f_sim.result()
     if quick:
-        behs, edge, abort = L.sample(behs, 1000, seed), L.sample(edge, 800, seed), L.sample(abort, 300, seed)
+        behs, edge = L.sample(behs, 1000, seed), L.sample(edge, 800, seed)
+        abort = L.stratified(abort, 50, seed) + L.sample(abort, 100, seed)
     else:
         # finite spaces enumerated completely: the option x kind x collector x construct matrix, every terminal edge of
         # the abstract graphs of Ctl_wg_edge.cfg and Ctl_wg_abort.cfg (the n<=5 graph and the random schedules are samples)
